@@ -97,6 +97,9 @@ type SFRecord struct {
 	Vals    []uint64 `json:"vals,omitempty"`
 	NextHop []byte   `json:"next_hop,omitempty"`
 	Unknown []byte   `json:"unknown,omitempty"`
+	// hostile knobs (0: off)
+	CutP1     int    `json:"cut_p1,omitempty"`      // sampled header cut to CutP1-1 octets
+	DeclLenP1 uint32 `json:"decl_len_p1,omitempty"` // declared record length is DeclLenP1-1
 }
 
 // SFSample is one sample.
@@ -112,6 +115,8 @@ type SFSample struct {
 	Output  uint32     `json:"output"`
 	Records []SFRecord `json:"records,omitempty"`
 	Unknown []byte     `json:"unknown,omitempty"`
+	RecCountP1 uint32  `json:"rec_count_p1,omitempty"` // hostile: announced record count - 1... i.e. count+1 encoded
+	DeclLenP1  uint32  `json:"decl_len_p1,omitempty"`
 }
 
 // SFDatagram is one sFlow v5 datagram.
@@ -121,6 +126,8 @@ type SFDatagram struct {
 	Seq     uint32     `json:"seq"`
 	Uptime  uint32     `json:"uptime"`
 	Samples []SFSample `json:"samples"`
+	SampleCountP1 uint32 `json:"sample_count_p1,omitempty"` // hostile: announced sample count + 1
+	Version       uint32 `json:"version,omitempty"`         // hostile: 0 means 5
 }
 
 type ctrField struct {
@@ -159,6 +166,9 @@ func encRecordSF(r *SFRecord, counter bool) []byte {
 	switch {
 	case !counter && r.Format == 1 && r.Raw != nil:
 		hb := r.Raw.Bytes()
+		if r.CutP1 > 0 && r.CutP1-1 < len(hb) {
+			hb = hb[:r.CutP1-1]
+		}
 		body = put32(body, r.Raw.Proto)
 		body = put32(body, r.FrameLen)
 		body = put32(body, r.Stripped)
@@ -194,14 +204,22 @@ func encRecordSF(r *SFRecord, counter bool) []byte {
 	}
 	var b []byte
 	b = put32(b, r.Format)
-	b = put32(b, uint32(len(body)))
+	if r.DeclLenP1 > 0 {
+		b = put32(b, r.DeclLenP1-1)
+	} else {
+		b = put32(b, uint32(len(body)))
+	}
 	return append(b, body...)
 }
 
 // Encode renders the datagram.
 func (d *SFDatagram) Encode() []byte {
 	var b []byte
-	b = put32(b, 5)
+	if d.Version != 0 {
+		b = put32(b, d.Version)
+	} else {
+		b = put32(b, 5)
+	}
 	if len(d.Agent) == 16 {
 		b = put32(b, 2)
 	} else {
@@ -211,7 +229,11 @@ func (d *SFDatagram) Encode() []byte {
 	b = put32(b, d.SubID)
 	b = put32(b, d.Seq)
 	b = put32(b, d.Uptime)
-	b = put32(b, uint32(len(d.Samples)))
+	if d.SampleCountP1 > 0 {
+		b = put32(b, d.SampleCountP1-1)
+	} else {
+		b = put32(b, uint32(len(d.Samples)))
+	}
 	for i := range d.Samples {
 		s := &d.Samples[i]
 		var body []byte
@@ -224,14 +246,22 @@ func (d *SFDatagram) Encode() []byte {
 			body = put32(body, s.Drops)
 			body = put32(body, s.Input)
 			body = put32(body, s.Output)
-			body = put32(body, uint32(len(s.Records)))
+			if s.RecCountP1 > 0 {
+				body = put32(body, s.RecCountP1-1)
+			} else {
+				body = put32(body, uint32(len(s.Records)))
+			}
 			for j := range s.Records {
 				body = append(body, encRecordSF(&s.Records[j], false)...)
 			}
 		case 2:
 			body = put32(body, s.Seq)
 			body = put32(body, uint32(s.SrcType)<<24|s.SrcIdx&0xffffff)
-			body = put32(body, uint32(len(s.Records)))
+			if s.RecCountP1 > 0 {
+				body = put32(body, s.RecCountP1-1)
+			} else {
+				body = put32(body, uint32(len(s.Records)))
+			}
 			for j := range s.Records {
 				body = append(body, encRecordSF(&s.Records[j], true)...)
 			}
@@ -239,7 +269,11 @@ func (d *SFDatagram) Encode() []byte {
 			body = append(body, s.Unknown...)
 		}
 		b = put32(b, s.Format) // enterprise 0
-		b = put32(b, uint32(len(body)))
+		if s.DeclLenP1 > 0 {
+			b = put32(b, s.DeclLenP1-1)
+		} else {
+			b = put32(b, uint32(len(body)))
+		}
 		b = append(b, body...)
 	}
 	return b
